@@ -21,6 +21,9 @@ def pytest_configure(config):
         core.Recorder(os.environ.get("DFMON_PROP", "?"), "thorough", 0)
     )
     rec.source = "ambient"
+    from dfmon import verdict
+
+    rec.classifier = verdict.make_classifier()
     config._dfmon_attached = attach.attach_all(rec)
 
 
